@@ -47,6 +47,9 @@ package ipv4
 //@   requires epOK(e) && r != nil && vvOK(vv) && vv.size <= 0xffff
 //@   ensures ghost(icmpSent) == old(ghost(icmpSent))
 //@   at_send echoRequest requires len(x.v) == old(vv.size) - header.ICMPv4MinimumSize
+// (the request is queued with a copy of the route it arrived on: the reply will leave from the
+// address that was pinged, to the requester)
+//@   at_send echoRequest requires x.r.LocalAddress == r.LocalAddress && x.r.RemoteAddress == r.RemoteAddress && x.r.NetProto == r.NetProto
 //@   modifies everything()
 
 //@ func (*endpoint).handleControl props C07
@@ -69,11 +72,14 @@ package ipv4
 //@   ensures ghost(icmpSent) == old(ghost(icmpSent)) + 1 && ghost(lastICMPType) == int(header.ICMPv4EchoReply) && ghost(lastICMPCode) == int(code)
 //@   ensures ghost(lastICMPHdrLen) == header.ICMPv4EchoMinimumSize
 //@   ensures ghost(lastICMPPayloadArr) == int(arr(data)) && ghost(lastICMPPayloadOff) == off(data) + 2 && ghost(lastICMPPayloadLen) == len(data) - 2
+//@   at_call WritePacket requires recv == r && protocol == header.ICMPv4ProtocolNumber
 //@   modifies everything(), modset(NETGHOSTS)
 
 // The replier answers every request it receives with exactly that reply; it never sends
 // anything else.
 //@ func (*endpoint).echoReplier props C13
 //@   requires e != nil
+//@   at_call sendPing4 requires code == 0 && arr(data) == arr(req.v) && off(data) == off(req.v) && len(data) == len(req.v)
+//@   at_call sendPing4 requires r.LocalAddress == req.r.LocalAddress && r.RemoteAddress == req.r.RemoteAddress
 //@   loop 1 invariant true
 //@   modifies everything(), modset(NETGHOSTS)
